@@ -324,4 +324,31 @@ theorem subscription_live_complete (cfg : HCfg) (resume : Resume) (hist live : L
 theorem tail_sees_no_history (cfg : HCfg) (hist live : List SFrame) (thr : SFrame) :
     subscription cfg .tail hist live thr = live.filter (fun f => f.ctx = cfg.ctx) := rfl
 
+/-- the subscription without its marker is a sub-sequence of the stream (history then live) -/
+theorem subscription_sublist (cfg : HCfg) (resume : Resume) (hist live : List SFrame) (thr : SFrame) :
+    ((subscription cfg resume hist live thr).filter (fun f => f ≠ thr)).Sublist (hist ++ live) := by
+  unfold subscription
+  cases resume with
+  | tail =>
+    exact (List.filter_sublist.trans List.filter_sublist).trans (List.sublist_append_right _ _)
+  | head =>
+    simp only [List.filter_append, List.filter_cons, ne_eq, not_true_eq_false, decide_false]
+    exact List.Sublist.append (List.filter_sublist.trans List.filter_sublist)
+      (List.filter_sublist.trans List.filter_sublist)
+  | after x =>
+    simp only [List.filter_append, List.filter_cons, ne_eq, not_true_eq_false, decide_false]
+    exact List.Sublist.append
+      (List.filter_sublist.trans (List.filter_sublist.trans List.filter_sublist))
+      (List.filter_sublist.trans List.filter_sublist)
+
+/-- C14 (in increasing id order): when the stream is in id order, the frames the closure is run
+    for - the subscription's own marker aside - are in strictly increasing id order -/
+theorem invocations_in_id_order (cfg : HCfg) (eval : σ → SFrame → σ × EvalRes) (st : HState) (env : σ)
+    (resume : Resume) (hist live : List SFrame) (thr : SFrame)
+    (hs : (hist ++ live).Pairwise (fun a b => a.id < b.id)) :
+    (((run cfg eval st env (subscription cfg resume hist live thr)).2.2.2.map (·.2)).filter
+      (fun f => f ≠ thr)).Pairwise (fun a b => a.id < b.id) := by
+  have h1 := (invocations_sublist cfg eval st env (subscription cfg resume hist live thr)).filter (fun f => f ≠ thr)
+  exact (hs.sublist (subscription_sublist cfg resume hist live thr)).sublist h1
+
 end Xs.Serve
